@@ -1,1 +1,327 @@
-/-! C19 property theorems about bitmaps (none yet). -/
+import MirVerif.Lemmas.BitmapRange
+import MirVerif.Lemmas.BitmapRel
+import MirVerif.Lemmas.BitmapCount
+import MirVerif.Lemmas.BitmapIter
+import MirVerif.Lemmas.BitmapOp
+/-!
+# C19, bitmap part: `mir-bitmap.h` behaves as the finite set it denotes
+
+Model: `MirVerif.Bitmap` (`Model/Bitmap.lean`).  `mem bm i` is the abstraction ("bit `i` is in the
+set"), `members bm` the increasing list of members.  `opH` is the in-place loop of
+`bitmap_op2`/`bitmap_op3` on heap objects, so `d`, `a`, `b`, `c` below may be *any* ids, equal or not:
+the aliased cases are instances of the same theorems.
+
+## The change flag (`bitmap_op_changed`)
+
+The full statement
+
+    (opH flagFix f h d srcs).2 = true ↔ ∃ i, mem (dst after) i ≠ mem (dst before) i
+
+is **false for the code as it is** (`flagFix = false`): `bitmap_op_changed_counterexample` below.
+Proved instead:
+* `bitmap_op_changed_partial` — the statement with the explicit extra hypothesis "`dst` has no
+  non-zero word beyond the longest source" (in particular whenever `dst` is itself a source:
+  `bitmap_op_changed_alias`), and `bitmap_op_changed_sound` (a reported change is always real);
+* `bitmap_op_changed_fixed` — the full statement for the model of the patched header
+  (`fixes/C19-bitmap-flag.patch`, `opH true`).
+
+SWITCH after the fix is committed to /repo: set `flagFix := true` in `Model/Bitmap.lean`, delete
+`bitmap_op_changed_counterexample_current` (it stops type-checking: its `decide` is about `flagFix`),
+and un-comment `bitmap_op_changed` at the end of this file (it is then the full theorem about the
+code that exists; `bitmap_op_changed_partial` keeps compiling, its hypothesis being `Or.inl rfl`).
+-/
+namespace MirVerif.C19
+open MirVerif.Bitmap
+
+/-! ## single bits, ranges -/
+
+/-- `bitmap_bit_p` is membership -/
+theorem bitmap_bit_p (bm : Bm) (nb : Nat) : bitP bm nb = mem bm nb := bitP_eq bm nb
+
+/-- `bitmap_set_bit_p`: adds exactly `nb`; returns whether it was absent -/
+theorem bitmap_set_bit (bm : Bm) (nb : Nat) :
+    (∀ i, mem (setBit bm nb).1 i = (mem bm i || i == nb)) ∧ (setBit bm nb).2 = !mem bm nb :=
+  ⟨setBit_mem bm nb, setBit_flag bm nb⟩
+
+/-- `bitmap_clear_bit_p`: removes exactly `nb`; returns whether it was present -/
+theorem bitmap_clear_bit (bm : Bm) (nb : Nat) :
+    (∀ i, mem (clearBit bm nb).1 i = (mem bm i && i != nb)) ∧ (clearBit bm nb).2 = mem bm nb :=
+  ⟨clearBit_mem bm nb, clearBit_flag bm nb⟩
+
+/-- `bitmap_set_bit_range_p` / `bitmap_clear_bit_range_p` (`setP` = true / false): exactly the bits
+`nb … nb+len-1` get the value `setP`; the flag says whether one of them had the other value,
+i.e. whether the set changed -/
+theorem bitmap_range (setP : Bool) (bm : Bm) (nb len : Nat) :
+    (∀ i, mem (rangeOp setP bm nb len).1 i = if nb ≤ i ∧ i < nb + len then setP else mem bm i) ∧
+    ((rangeOp setP bm nb len).2 = true ↔ ∃ i, mem (rangeOp setP bm nb len).1 i ≠ mem bm i) := by
+  refine ⟨rangeOp_mem setP bm nb len, ?_⟩
+  rw [rangeOp_flag]
+  constructor
+  · rintro ⟨i, h1, h2, h3⟩
+    refine ⟨i, ?_⟩
+    rw [rangeOp_mem, if_pos ⟨h1, h2⟩]
+    exact fun h => h3 h.symm
+  · rintro ⟨i, hi⟩
+    rw [rangeOp_mem] at hi
+    by_cases hc : nb ≤ i ∧ i < nb + len
+    · rw [if_pos hc] at hi
+      exact ⟨i, hc.1, hc.2, fun h => hi h.symm⟩
+    · rw [if_neg hc] at hi; exact absurd rfl hi
+
+example : (rangeOp true [0#64] 62 4).1 = [0xC000000000000000#64, 3#64] ∧ (rangeOp true [0#64] 62 4).2 = true := by
+  decide
+
+/-- `bitmap_clear` -/
+theorem bitmap_clear (bm : Bm) (i : Nat) : mem (clear bm) i = false := mem_clear bm i
+
+/-! ## copy, comparison -/
+
+/-- `bitmap_copy` makes `dst` word-for-word equal to `src` -/
+theorem bitmap_copy (dst src : Bm) : copy dst src = src := copy_eq dst src
+
+/-- `bitmap_equal_p` is set equality (lengths may differ by zero words) -/
+theorem bitmap_equal_p (a b : Bm) : equalP a b = true ↔ ∀ i, mem a i = mem b i := equalP_iff a b
+
+example : equalP [5#64] [5#64, 0#64, 0#64] = true ∧ equalP [5#64, 0#64, 1#64] [5#64] = false := by decide
+
+/-- `bitmap_intersect_p` -/
+theorem bitmap_intersect_p (a b : Bm) :
+    intersectP a b = true ↔ ∃ i, mem a i = true ∧ mem b i = true := intersectP_iff a b
+
+/-- `bitmap_empty_p` -/
+theorem bitmap_empty_p (bm : Bm) : emptyP bm = true ↔ ∀ i, mem bm i = false := emptyP_iff bm
+
+/-! ## count, min, max -/
+
+/-- `i ∈ members bm ↔ mem bm i`, and `members` is strictly increasing -/
+theorem bitmap_members (bm : Bm) :
+    (∀ i, i ∈ members bm ↔ mem bm i = true) ∧ (members bm).Pairwise (· < ·) :=
+  ⟨mem_members bm, members_sorted bm⟩
+
+/-- `bitmap_bit_count` is the cardinality -/
+theorem bitmap_bit_count (bm : Bm) : bitCount bm = (members bm).length := bitCount_eq bm
+
+/-- `bitmap_bit_min` / `bitmap_bit_max`: 0 on the empty set, otherwise the least / greatest member -/
+theorem bitmap_bit_min_max (bm : Bm) :
+    ((∀ i, mem bm i = false) → bitMin bm = 0 ∧ bitMax bm = 0) ∧
+    (∀ i, mem bm i = true →
+      mem bm (bitMin bm) = true ∧ mem bm (bitMax bm) = true ∧ bitMin bm ≤ i ∧ i ≤ bitMax bm) := by
+  rw [bitMin_eq, bitMax_eq]
+  constructor
+  · intro h
+    have : members bm = [] := by
+      rw [List.eq_nil_iff_forall_not_mem]
+      intro a ha
+      rw [mem_members, h a] at ha
+      exact Bool.false_ne_true ha
+    simp [this]
+  · intro i hi
+    have hin := (mem_members bm i).2 hi
+    have hne : members bm ≠ [] := List.ne_nil_of_mem hin
+    exact ⟨(mem_members bm _).1 (head?_mem_getD _ hne), (mem_members bm _).1 (getLast?_mem_getD _ hne),
+      head_le_of_sorted _ _ (members_sorted bm) hin, le_last_of_sorted _ _ (members_sorted bm) hin⟩
+
+example : bitCount [0#64, 5#64] = 2 ∧ bitMin [0#64, 5#64] = 64 ∧ bitMax [0#64, 5#64] = 66 := by decide
+
+/-! ## iterator -/
+
+/-- `FOREACH_BITMAP_BIT` yields exactly the members, each once, in increasing order -/
+theorem bitmap_iter (bm : Bm) :
+    iterAll bm = (List.range (64 * bm.length)).filter (mem bm) ∧
+    (iterAll bm).Pairwise (· < ·) ∧ (∀ i, i ∈ iterAll bm ↔ mem bm i = true) := by
+  rw [iterAll_eq]
+  exact ⟨rfl, members_sorted bm, mem_members bm⟩
+
+example : iterAll [0x8000000000000001#64, 0#64, 4#64] = [0, 63, 130] := by decide
+
+/-! ## op2 / op3: set algebra, also for aliased operands -/
+
+theorem bitwise_and : Bitwise fAnd (fun | [x, y] => x && y | _ => false) where
+  bit ws j := by rcases ws with _ | ⟨a, _ | ⟨b, _ | ⟨c, r⟩⟩⟩ <;> simp [fAnd]
+  zero n := by rcases n with _ | _ | _ | n <;> simp [List.replicate]
+
+theorem bitwise_and_compl : Bitwise fAndCompl (fun | [x, y] => x && !y | _ => false) where
+  bit ws j := by
+    rcases ws with _ | ⟨a, _ | ⟨b, _ | ⟨c, r⟩⟩⟩ <;> simp [fAndCompl]
+    by_cases hj : j < 64
+    · simp [hj]
+    · simp [BitVec.getLsbD_of_ge a j (by omega)]
+  zero n := by rcases n with _ | _ | _ | n <;> simp [List.replicate]
+
+theorem bitwise_ior : Bitwise fIor (fun | [x, y] => x || y | _ => false) where
+  bit ws j := by rcases ws with _ | ⟨a, _ | ⟨b, _ | ⟨c, r⟩⟩⟩ <;> simp [fIor]
+  zero n := by rcases n with _ | _ | _ | n <;> simp [List.replicate]
+
+theorem bitwise_ior_and : Bitwise fIorAnd (fun | [x, y, z] => x || (y && z) | _ => false) where
+  bit ws j := by rcases ws with _ | ⟨a, _ | ⟨b, _ | ⟨c, _ | ⟨e, r⟩⟩⟩⟩ <;> simp [fIorAnd]
+  zero n := by rcases n with _ | _ | _ | _ | n <;> simp [List.replicate]
+
+theorem bitwise_ior_and_compl :
+    Bitwise fIorAndCompl (fun | [x, y, z] => x || (y && !z) | _ => false) where
+  bit ws j := by
+    rcases ws with _ | ⟨a, _ | ⟨b, _ | ⟨c, _ | ⟨e, r⟩⟩⟩⟩ <;> simp [fIorAndCompl]
+    by_cases hj : j < 64
+    · simp [hj]
+    · simp [BitVec.getLsbD_of_ge b j (by omega)]
+  zero n := by rcases n with _ | _ | _ | _ | n <;> simp [List.replicate]
+
+/-- **bitmap_op_set** (generic): after `bitmap_op2/op3 (dst, srcs…, f)` the destination denotes the
+pointwise `fb` of the sets the sources denoted *before the call*, and no other object changed.
+Holds for every choice of ids — `d ∈ srcs` and repeated sources are allowed — and for both flag
+variants. -/
+theorem bitmap_op_set (fix : Bool) (f : List Word → Word) (fb : List Bool → Bool) (hf : Bitwise f fb)
+    (h : Heap) (d : Nat) (hd : d < h.length) (srcs : List Nat) :
+    (∀ i, mem (hget (opH fix f h d srcs).1 d) i = fb (srcs.map (fun s => mem (hget h s) i))) ∧
+    (∀ x, x ≠ d → hget (opH fix f h d srcs).1 x = hget h x) ∧
+    (opH fix f h d srcs).1.length = h.length := by
+  rw [opH_eq fix f h d hd srcs]
+  refine ⟨?_, ?_, by simp⟩
+  · intro i
+    rw [hget_set, if_pos ⟨rfl, hd⟩, opV_mem fix f fb hf, List.map_map]
+    rfl
+  · intro x hx
+    rw [hget_set, if_neg (fun c => hx c.1)]
+
+/-- non-vacuity of `bitmap_op_set`: three distinct objects, destination longer than the sources -/
+example : (opH false fIorAndCompl [[1#64, 0#64, 8#64], [6#64], [3#64, 1#64], [2#64]] 0 [1, 2, 3]).1 =
+    [[7#64, 1#64], [6#64], [3#64, 1#64], [2#64]] := by decide
+
+/-- `bitmap_and (d, a, b)`, any aliasing -/
+theorem bitmap_and_set (h : Heap) (d a b : Nat) (hd : d < h.length) (i : Nat) :
+    mem (hget (bAnd h d a b).1 d) i = (mem (hget h a) i && mem (hget h b) i) :=
+  (bitmap_op_set flagFix fAnd _ bitwise_and h d hd [a, b]).1 i
+
+/-- `bitmap_and_compl (d, a, b)`, any aliasing -/
+theorem bitmap_and_compl_set (h : Heap) (d a b : Nat) (hd : d < h.length) (i : Nat) :
+    mem (hget (bAndCompl h d a b).1 d) i = (mem (hget h a) i && !mem (hget h b) i) :=
+  (bitmap_op_set flagFix fAndCompl _ bitwise_and_compl h d hd [a, b]).1 i
+
+/-- `bitmap_ior (d, a, b)`, any aliasing -/
+theorem bitmap_ior_set (h : Heap) (d a b : Nat) (hd : d < h.length) (i : Nat) :
+    mem (hget (bIor h d a b).1 d) i = (mem (hget h a) i || mem (hget h b) i) :=
+  (bitmap_op_set flagFix fIor _ bitwise_ior h d hd [a, b]).1 i
+
+/-- `bitmap_ior_and (d, a, b, c)`: `a ∪ (b ∩ c)`, any aliasing -/
+theorem bitmap_ior_and_set (h : Heap) (d a b c : Nat) (hd : d < h.length) (i : Nat) :
+    mem (hget (bIorAnd h d a b c).1 d) i =
+      (mem (hget h a) i || (mem (hget h b) i && mem (hget h c) i)) :=
+  (bitmap_op_set flagFix fIorAnd _ bitwise_ior_and h d hd [a, b, c]).1 i
+
+/-- `bitmap_ior_and_compl (d, a, b, c)`: `a ∪ (b \ c)`, any aliasing -/
+theorem bitmap_ior_and_compl_set (h : Heap) (d a b c : Nat) (hd : d < h.length) (i : Nat) :
+    mem (hget (bIorAndCompl h d a b c).1 d) i =
+      (mem (hget h a) i || (mem (hget h b) i && !mem (hget h c) i)) :=
+  (bitmap_op_set flagFix fIorAndCompl _ bitwise_ior_and_compl h d hd [a, b, c]).1 i
+
+/-- aliased instance actually used by the dataflow solver: `bitmap_and_compl (x, x, y)` with the
+destination being the first source, and `bitmap_ior_and_compl (out, out, in, out)` -/
+example (h : Heap) (x y : Nat) (hx : x < h.length) (i : Nat) :
+    mem (hget (bAndCompl h x x y).1 x) i = (mem (hget h x) i && !mem (hget h y) i) :=
+  bitmap_and_compl_set h x x y hx i
+
+example : (bAndCompl [[7#64, 0#64, 4#64], [5#64]] 0 0 1).1 = [[2#64, 0#64, 4#64], [5#64]] := by decide
+example : (bAndCompl [[7#64, 0#64, 4#64], [5#64]] 1 0 1).1 = [[7#64, 0#64, 4#64], [2#64, 0#64, 4#64]] := by decide
+
+/-! ## the change flag -/
+
+/-- set-level "dst changed" -/
+def Changed (h h' : Heap) (d : Nat) : Prop := ∃ i, mem (hget h' d) i ≠ mem (hget h d) i
+
+/-- **bitmap_op_changed for the patched header** (`fixes/C19-bitmap-flag.patch`): the flag is
+exact, for all operands, aliased or not -/
+theorem bitmap_op_changed_fixed (f : List Word → Word) (h : Heap) (d : Nat) (hd : d < h.length)
+    (srcs : List Nat) :
+    (opH true f h d srcs).2 = true ↔ Changed h (opH true f h d srcs).1 d := by
+  unfold Changed
+  rw [opH_eq true f h d hd srcs]
+  simp only
+  rw [hget_set, if_pos ⟨rfl, hd⟩]
+  exact opV_flag_fixed f (hget h d) (srcs.map (hget h))
+
+/-- non-vacuity: on the patched model the witness of the defect reports the change -/
+example : (opH true fAnd [[0#64, 0#64, 4#64], [], []] 0 [1, 2]) = ([[], [], []], true) := by decide
+
+/-- the full statement is FALSE for the header as it is: `dst = {130}`, `bitmap_and (dst, ∅, ∅)`
+empties `dst` and returns 0 (the three words of `dst` are beyond `max (src lens) = 0`, so the loop
+compares nothing and `VARR_TRUNC` silently drops them) -/
+theorem bitmap_op_changed_counterexample :
+    ¬ ∀ (h : Heap) (d : Nat) (srcs : List Nat), d < h.length →
+        ((opH false fAnd h d srcs).2 = true ↔ Changed h (opH false fAnd h d srcs).1 d) := by
+  intro hall
+  have h1 := hall [[0#64, 0#64, 4#64], [], []] 0 [1, 2] (by decide)
+  have h2 : Changed [[0#64, 0#64, 4#64], [], []] (opH false fAnd [[0#64, 0#64, 4#64], [], []] 0 [1, 2]).1 0 :=
+    ⟨130, by decide⟩
+  have h3 := h1.2 h2
+  revert h3
+  decide
+
+/-- the same witness on the model of the code that exists (`flagFix`); remove after the fix -/
+theorem bitmap_op_changed_counterexample_current :
+    (bAnd [[0#64, 0#64, 4#64], [], []] 0 1 2).2 = false ∧
+    (bAnd [[0#64, 0#64, 4#64], [], []] 0 1 2).1 = [[], [], []] := by
+  decide
+
+/-- **bitmap_op_changed, partial form for the current header**: exact when `dst` has no non-zero
+word at or beyond the length of the longest source (e.g. `dst` not longer than a source).
+Stated about `opH flagFix`, the model of the code that exists; once `flagFix = true` the
+hypothesis is discharged by `Or.inl rfl`. -/
+theorem bitmap_op_changed_partial (f : List Word → Word) (h : Heap) (d : Nat) (hd : d < h.length)
+    (srcs : List Nat)
+    (hz : flagFix = true ∨ ∀ k, maxLen (srcs.map (hget h)) ≤ k → wget (hget h d) k = 0#64) :
+    (opH flagFix f h d srcs).2 = true ↔ Changed h (opH flagFix f h d srcs).1 d := by
+  generalize flagFix = fx at *
+  cases fx with
+  | true => exact bitmap_op_changed_fixed f h d hd srcs
+  | false =>
+    have hz' := hz.resolve_left (by decide)
+    unfold Changed
+    rw [opH_eq false f h d hd srcs]
+    simp only
+    rw [hget_set, if_pos ⟨rfl, hd⟩]
+    exact opV_flag_current f (hget h d) (srcs.map (hget h)) hz'
+
+/-- whenever the destination is also one of the sources (the way the generator's dataflow uses
+these functions) the flag is exact already on the current header -/
+theorem bitmap_op_changed_alias (f : List Word → Word) (h : Heap) (d : Nat) (hd : d < h.length)
+    (srcs : List Nat) (hal : d ∈ srcs) :
+    (opH flagFix f h d srcs).2 = true ↔ Changed h (opH flagFix f h d srcs).1 d := by
+  apply bitmap_op_changed_partial f h d hd srcs
+  right
+  intro k hk
+  apply wget_of_ge
+  have := le_maxLen (srcs.map (hget h)) (hget h d) (List.mem_map.2 ⟨d, hal, rfl⟩)
+  omega
+
+/-- on the current header the flag never claims a change that did not happen -/
+theorem bitmap_op_changed_sound (f : List Word → Word) (h : Heap) (d : Nat) (hd : d < h.length)
+    (srcs : List Nat) (hflag : (opH flagFix f h d srcs).2 = true) :
+    Changed h (opH flagFix f h d srcs).1 d := by
+  generalize flagFix = fx at *
+  cases fx with
+  | true => exact (bitmap_op_changed_fixed f h d hd srcs).1 hflag
+  | false =>
+    unfold Changed
+    rw [opH_eq false f h d hd srcs] at hflag ⊢
+    simp only at hflag ⊢
+    rw [hget_set, if_pos ⟨rfl, hd⟩]
+    exact opV_flag_current_sound f (hget h d) (srcs.map (hget h)) hflag
+
+/-- non-vacuity of the partial form: a state satisfying its hypothesis in which the flag is 1 -/
+example : (bIor [[1#64], [0#64, 2#64]] 0 0 1).2 = true ∧
+    (∀ k, maxLen ([0, 1].map (hget [[1#64], [0#64, 2#64]])) ≤ k → wget (hget [[1#64], [0#64, 2#64]] 0) k = 0#64) := by
+  refine ⟨by decide, ?_⟩
+  intro k hk
+  apply wget_of_ge
+  have : maxLen ([0, 1].map (hget [[1#64], [0#64, 2#64]])) = 2 := by decide
+  rw [this] at hk
+  simp [hget]; omega
+
+/- AFTER THE FIX (flagFix := true), un-comment: the full theorem about the code that exists.
+
+theorem bitmap_op_changed (f : List Word → Word) (h : Heap) (d : Nat) (hd : d < h.length)
+    (srcs : List Nat) :
+    (opH flagFix f h d srcs).2 = true ↔ Changed h (opH flagFix f h d srcs).1 d :=
+  bitmap_op_changed_partial f h d hd srcs (Or.inl rfl)
+-/
+
+end MirVerif.C19
